@@ -68,8 +68,28 @@ const ARC_STEPS_PER_PI: usize = 48;
 
 /// circular sector centre c radius r from angle a0 sweeping by `sweep` (|sweep| <= pi):
 /// (inscribed polygon, circumscribed polygon)
+thread_local! {
+    /// when positive: round pieces are approximated so finely that the inscribed and the
+    /// circumscribed polygon differ by at most this much (user units); 0 = ARC_STEPS_PER_PI
+    static ARC_TOL: std::cell::Cell<f64> = std::cell::Cell::new(0.0);
+}
+
+/// run `f` with round pieces approximated to within `tol` user units
+pub fn with_arc_tolerance<T>(tol: f64, f: impl FnOnce() -> T) -> T {
+    let old = ARC_TOL.with(|c| c.replace(tol));
+    let r = f();
+    ARC_TOL.with(|c| c.set(old));
+    r
+}
+
 fn sector(c: P2, r: f64, a0: f64, sweep: f64) -> (Poly, Poly) {
-    let n = ((sweep.abs() / std::f64::consts::PI * ARC_STEPS_PER_PI as f64).ceil() as usize).max(2);
+    let mut n = ((sweep.abs() / std::f64::consts::PI * ARC_STEPS_PER_PI as f64).ceil() as usize).max(2);
+    let tol = ARC_TOL.with(|c| c.get());
+    if tol > 0.0 && r > tol {
+        // r (1 / cos(step / 2) - 1) <= tol
+        let step = 2.0 * (1.0 / (1.0 + tol / r)).acos();
+        n = n.max(((sweep.abs() / step).ceil() as usize).min(1 << 12));
+    }
     let step = sweep / n as f64;
     let rr = r / (step.abs() / 2.0).cos();
     let mut inn = vec![c];
